@@ -24,9 +24,16 @@ RECURSIVE Depth(_, _)
 Depth(P, i) == IF Par(P, i) = -1 THEN 0 ELSE 1 + Depth(P, Par(P, i))
 
 \* well-formed tree as the library means it: ids = positions, node 0 the only root, everything reaches it
+\* (reachability by pointer jumping, so that trees of thousands of nodes do not need deep recursion)
+RECURSIVE JumpK(_, _)
+JumpK(f, k) == IF k = 0 THEN f ELSE JumpK([i \in DOMAIN f |-> f[f[i]]], k - 1)
+RECURSIVE Log2Up(_)
+Log2Up(n)   == IF n <= 1 THEN 0 ELSE 1 + Log2Up((n + 1) \div 2)
+TopAnc(P)   == JumpK([i \in Nodes(P) |-> IF Par(P, i) \in Nodes(P) THEN Par(P, i) ELSE i], Log2Up(Len(P)) + 1)   \* i |-> where i's parent chain ends
 WF(P)       == /\ Len(P) >= 1
                /\ P[1] = -1
-               /\ \A i \in 1 .. Len(P) - 1 : Par(P, i) \in Nodes(P) /\ 0 \in Anc(P, i)
+               /\ \A i \in 1 .. Len(P) - 1 : Par(P, i) \in Nodes(P)
+               /\ LET top == TopAnc(P) IN \A i \in Nodes(P) : top[i] = 0
 Sorted(P)   == \A i \in 1 .. Len(P) - 1 : Par(P, i) < i
 
 IsTip(P, i)  == Kids(P, i) = {}
